@@ -75,6 +75,9 @@ let tok_out s =
     "#" ^ Digest.to_hex (Digest.string s) ^ ":" ^ string_of_int (String.length s)
   else tok_bytes s
 
+let name_untok (t : string) : string =
+  if String.length t > 0 && t.[0] = ':' then unhex (String.sub t 1 (String.length t - 1)) else t
+
 let split_ws (l : string) : string list =
   List.filter (fun s -> s <> "") (String.split_on_char ' ' l)
 
@@ -296,6 +299,7 @@ let trace_main file =
              (String.concat " " lhs) model impl in
          (match lhs with
           | "OP" :: conn :: name :: nargs :: rest ->
+              let name = name_untok name in
               let nargs = int_of_string nargs in
               let rest = if nargs = 0 then List.tl rest else rest in
               let args = List.map (fun t -> bs (parse_tok t)) (take nargs rest) in
@@ -554,6 +558,7 @@ let judge_main file =
          List.iter (fun k -> match k.jval with Some (JKnown v) -> Hashtbl.replace memory k.jname v | _ -> ()) d;
          prev_dump := d
      | "OP" :: _conn :: name :: nargs :: rest ->
+         let name = name_untok name in
          incr stepno; incr steps;
          let nargs = int_of_string nargs in
          let rest = if nargs = 0 then List.tl rest else rest in
